@@ -313,6 +313,18 @@ def str_method(it, recv, name, args, kw):
         return mk_bool(z3.PrefixOf(zstr(args[0]), e))
     if name == 'endswith':
         return mk_bool(z3.SuffixOf(zstr(args[0]), e))
+    if name in ('partition', 'rpartition') and len(args) == 1 and not kw \
+            and isinstance(args[0], str) and len(args[0]) == 1:
+        zs = z3.StringVal(args[0])
+        if not it.truth(mk_bool(z3.Contains(e, zs))):
+            return (mk_str(e), '', '') if name == 'partition' \
+                else ('', '', mk_str(e))
+        a = _fresh_s(it, 'part')
+        b = _fresh_s(it, 'part')
+        side = a if name == 'partition' else b
+        it.path.assume(mk_bool(z3.And(e == z3.Concat(a, zs, b),
+                                      z3.Not(z3.Contains(side, zs)))))
+        return (SStr(a), args[0], SStr(b))
     if name in ('removeprefix', 'removesuffix') and len(args) == 1 \
             and not kw and isinstance(args[0], (str, SStr)):
         a = zstr(args[0])
@@ -585,6 +597,26 @@ def bytes_method(it, recv, name, args, kw):
         it.path.fact(z3.ForAll([k], z3.Implies(z3.And(k >= 0, k < i),
                                                b.at(k) != c)))
         return mk_int(i)
+    if name == 'partition' and len(args) == 1 and not kw and isinstance(
+            args[0], bytes) and len(args[0]) == 1:
+        # (head, sep, tail) around the first occurrence of one byte value
+        from . import ops
+        from .core import SInt
+        b = ops.as_sbytes(recv)
+        n = b.zlen()
+        c = args[0][0]
+        j = z3.Int('q!%d' % next(it.path.fresh))
+        absent = z3.ForAll([j], z3.Implies(z3.And(j >= 0, j < n),
+                                           b.at(j) != c))
+        if it.truth(mk_bool(absent)):
+            return (recv, b'', b'')
+        i = z3.Int('first!%d' % next(it.path.fresh))
+        k = z3.Int('q!%d' % next(it.path.fresh))
+        it.path.fact(z3.And(i >= 0, i < n, b.at(i) == c))
+        it.path.fact(z3.ForAll([k], z3.Implies(z3.And(k >= 0, k < i),
+                                               b.at(k) != c)))
+        return (ops.bytes_slice(it, recv, slice(0, SInt(i), None)), args[0],
+                ops.bytes_slice(it, recv, slice(SInt(i + 1), None, None)))
     if name in ('rstrip', 'lstrip', 'strip') and len(args) == 1 and not kw \
             and isinstance(args[0], bytes) and len(args[0]) == 1:
         # strip one byte value from the end(s): the result is the window
